@@ -384,11 +384,17 @@ class Tracker:
         self.last_unsol = None
         self.connected = False
         self.select = None     # the SELECT whose OPERATE is outstanding
+        self.next_seq = None   # sequence number the next request must carry
+        self.errors = []
 
     def feed(self, t, w, frag=None):
         if w[0] == "tx" and len(w) == 3:
             data = bytes.fromhex(w[2]) if w[2] != "-" else b""
             if len(data) >= 2 and data[1] != 0:
+                if self.next_seq is not None and (data[0] & 15) != self.next_seq:
+                    self.errors.append(("request-sequence-fresh", "request %s carries sequence %d, the previous request and the "
+                                        "fragments accepted since make %d the next number" % (w[2][:12], data[0] & 15, self.next_seq)))
+                self.next_seq = ((data[0] & 15) + 1) & 15
                 prev = self.cur
                 self.cur = Outstanding(data[1], data[0] & 15, t, data[2:])
                 if data[1] == 4 and prev is not None and prev.fc == 3:
@@ -402,6 +408,8 @@ class Tracker:
             if self.cur is not None:
                 self.cur.frags += 1
                 self.cur.last_progress = t
+            if len(w) > 3 and self.next_seq is not None and not (int(w[3][:2], 16) & 0x40):
+                self.next_seq = (self.next_seq + 1) & 15       # a non-final fragment: the series goes on
         elif w[0] == "info" and w[1] in ("task_success", "task_fail"):
             self.cur = None
         elif w[0] == "res" and self.cur is not None and self.cur.link and w[1] in self.link_tokens:
